@@ -184,6 +184,7 @@ class Scanner:
         state, pos, f = "INITIAL", 0, None
         out = []
         fired = []
+        raw = []                          # (token name, the YYSTYPE object the action filled) for a parser simulation
         steps = 0
         while True:
             steps += 1
@@ -212,7 +213,9 @@ class Scanner:
             if tok is not None:
                 name = tok[1] if isinstance(tok, tuple) else toknames.get(tok, tok)
                 out.append((name, self.payload(name, yl)))
+                raw.append((name, yl))
                 if name == "TOK_EOF":
+                    self.raw_tokens = raw     # set on return: an action may re-enter the scanner (embedded queries)
                     return out, fired
                 f = None
             elif rule[1] == "<<EOF>>":
